@@ -478,6 +478,17 @@ def check_C07(ctx):
     ctx.assumptions = ["display width is measured with go-runewidth on the ANSI-stripped row (RUNEWIDTH_EASTASIAN=0)",
                        "user decorators are assumed to report their true width (built-in ones are proved to)"]
     fill_check(ctx, c07_monitor, 2500, 200000, c07_project, FILL_DEPS | {"Props/C07.v"})
+    # rows as a container emits them (bars clipped by the height, popped, promoted, re-prioritised in between)
+    if ctx.harness and not (ctx.replay and json.load(open(ctx.replay)).get("family") != "frames"):
+        sigs = set()
+        for run in frames_runs(ctx, 120, 3000, fam="frames", model=False):
+            for c in split_traces(os.path.join(run["dir"], "cases.txt")):
+                ctx.cov["evaluations"] += 1
+                mon = M.c07_frames_monitor(c, frames_of(c))
+                if mon and mon[1] not in sigs:
+                    sigs.add(mon[1])
+                    ctx.add_violation(mon[0], mon[1], {"family": "frames", "run_seed": run["seed"], "n": run["n"], "k": c["k"],
+                                                       "script": c["hdr"] + script_of(c) + ["end"]})
 
 
 def c08_project(line):
